@@ -679,7 +679,15 @@ def g_level(ck: Check, rule: str) -> None:
                     bn = st_b
                 back = paths_imply(fm, bn, hdr, logic.FALSE, None, canon=True)
                 reach = fm.cfg.reach_avoiding(bn, [hdr])
-                rets_ok = all(is_false(x.ast.value) for x in (fm.cfg.nodes[i] for i in reach)
+                def says_false(x) -> bool:
+                    v_ = x.ast.value
+                    if is_false(v_):
+                        return True
+                    # `return completed` with the flag lowered on every way from here to the return
+                    if isinstance(v_, ast.Name):
+                        return paths_imply(fm, bn, x, logic.Not(logic.B("T:" + v_.id)), None, canon=True, stop={hdr.id}) is None
+                    return False
+                rets_ok = all(says_false(x) for x in (fm.cfg.nodes[i] for i in reach)
                               if x.kind == "stmt" and isinstance(x.ast, ast.Return) and
                               paths_imply(fm, bn, x, logic.FALSE, None, canon=True, stop={hdr.id}) is not None)
                 okb = back is None and rets_ok
